@@ -181,20 +181,37 @@ pub fn machines(opts: &Opts) -> Vec<crate::machine::MCfg> {
             out.push(m);
         }
         Tier::Thorough => {
-            let mut m = base_cfg("flags/N3F3P2K1", same_shape_leaves(var), vec![OpK::Mul, OpK::Add], 6);
-            m.bounds = Bounds { builds: 3, flags: 3, passes: 2, clones: 1, depth: 7, ..Bounds::default() };
+            let mut m = base_cfg("flags/N2F2P2K1-three-leaves", same_shape_leaves(var), vec![OpK::Mul, OpK::Add], 5);
+            m.bounds = Bounds { builds: 2, flags: 2, passes: 2, clones: 1, depth: 6, ..Bounds::default() };
             m.flag_kinds = vec![0, 1, 2, 3];
             m.touch_leaves = true;
             m.seeds = vec![0];
             out.push(m);
-            let mut m = base_cfg("flags/N2F4P3K1C1", same_shape_leaves(var), vec![OpK::Mul, OpK::Neg], 5);
-            m.bounds = Bounds { builds: 2, flags: 4, passes: 3, clones: 1, clears: 1, depth: 8, ..Bounds::default() };
+            let two: Vec<crate::machine::LeafSpec> = same_shape_leaves(var).into_iter().enumerate().filter(|(i, _)| *i != 1).map(|(_, l)| l).collect();
+            let mut m = base_cfg("flags/N2F3P3K1C1", two.clone(), vec![OpK::Mul], 4);
+            m.bounds = Bounds { builds: 2, flags: 3, passes: 3, clones: 1, clears: 1, depth: 8, ..Bounds::default() };
             m.flag_kinds = vec![0, 1, 2, 3];
             m.touch_leaves = true;
             m.seeds = vec![0];
             out.push(m);
-            let mut m = base_cfg("adopt/N3P2A2F1", same_shape_leaves(var), vec![OpK::Add, OpK::Mul, OpK::Matmul { ta: false, tb: false, bias: true }], 7);
-            m.bounds = Bounds { builds: 3, passes: 2, adopts: 2, fetches: 1, depth: 7, ..Bounds::default() };
+            let mut m = base_cfg("flags/N3F2P2", two, vec![OpK::Mul, OpK::Neg], 5);
+            m.bounds = Bounds { builds: 3, flags: 2, passes: 2, depth: 7, ..Bounds::default() };
+            m.flag_kinds = vec![1, 2, 3];
+            m.touch_leaves = true;
+            m.seeds = vec![0];
+            out.push(m);
+            let mut m = base_cfg("adopt/N3P2A1", same_shape_leaves(var), vec![OpK::Add, OpK::Mul], 7);
+            m.bounds = Bounds { builds: 3, passes: 2, adopts: 1, fetches: 1, depth: 6, ..Bounds::default() };
+            m.seeds = vec![0];
+            out.push(m);
+            // the additive term of matmul: its gradient is a pass-through of the delta
+            let sq = vec![
+                crate::machine::LeafSpec { dims: vec![2, 2], vals: vec![1.0, 2.0 + var as f64, 3.0, -1.0], tracked: true },
+                crate::machine::LeafSpec { dims: vec![2, 2], vals: vec![2.0, -1.0, 0.5, 1.5], tracked: true },
+                crate::machine::LeafSpec { dims: vec![2], vals: vec![0.5, -2.0], tracked: true },
+            ];
+            let mut m = base_cfg("adopt/matmul-bias", sq, vec![OpK::Matmul { ta: false, tb: false, bias: true }, OpK::Mul], 7);
+            m.bounds = Bounds { builds: 2, passes: 2, adopts: 2, depth: 6, ..Bounds::default() };
             m.seeds = vec![0];
             out.push(m);
         }
